@@ -522,6 +522,9 @@ func (e *Exec) classifyStranded() string {
 
 // FixedPoint checks C09's first clause on a settled execution: re-examining every object changes nothing
 func (e *Exec) FixedPoint(j *Judgement) {
+	if e.IdleFinding != "" {
+		j.add("fixpoint", []string{"C09"}, "fixpoint/not-a-fixed-point-while-a-target-is-offline", "%s", e.IdleFinding)
+	}
 	if !e.GoalReached {
 		return
 	}
